@@ -447,7 +447,7 @@ Qed.
 
 Lemma step_top n0 s o : Top n0 s -> Top n0 (step KRace s o).
 Proof.
-  intros (HI & Ha & Hn). destruct o as [i x|]; cbn [step cb_of].
+  intros (HI & Ha & Hn). destruct o as [i x| |]; cbn [step cb_of]; [| |exact (conj HI (conj Ha Hn))].
   - destruct (Nat.ltb_spec i (n_of s)); [|exact (conj HI (conj Ha Hn))].
     destruct (res (get i s)) eqn:Hr; [exact (conj HI (conj Ha Hn))|].
     assert (Hn' : n_of (fire_in race_cb i x s) = n_of s) by apply (g_n_fire_in race_cb n_race_cb).
